@@ -97,6 +97,9 @@ pub fn pdesc(st: &State) -> Value {
 pub struct Probe {
     pub w: &'static str,
     pub g: Bits,
+    /// bits after pushing zeros up to the first bit of the next storage word and THEN growing with zeros:
+    /// storage dirt in a whole word above `len` (which a plain resize overwrites) becomes visible
+    pub gw: Bits,
     pub by: Vec<u8>,
     pub z: u8,
     /// equal (==, and cmp where the type has it) to a fresh vector built from its own bits
@@ -106,7 +109,7 @@ pub struct Probe {
 
 impl Probe {
     pub fn to_json(&self) -> Value {
-        json!({"w": self.w, "g": self.g, "by": self.by, "z": self.z, "e": self.e, "ok": self.ok})
+        json!({"w": self.w, "g": self.g, "gw": self.gw, "by": self.by, "z": self.z, "e": self.e, "ok": self.ok})
     }
     /// normal form for grouping: the grown vector without its trailing zeros (the amount of growth
     /// depends on the kind's capacity; clean storage gives the same normal form everywhere)
@@ -115,6 +118,15 @@ impl Probe {
         let mut g = self.g.clone();
         while g.last() == Some(&0) {
             g.pop();
+        }
+        // a clean push-walk has the same normal form as a clean growth: fold it in, dirt keeps it apart
+        let mut gw = self.gw.clone();
+        while gw.last() == Some(&0) {
+            gw.pop();
+        }
+        if gw != g {
+            g.push(7);
+            g.extend(gw);
         }
         (if named { self.w } else { "" }, g, self.by.clone(), z, self.ok)
     }
@@ -127,6 +139,21 @@ pub fn probe(v: &AnyBv, what: &'static str) -> Probe {
         let mut g = v.clone();
         let o1 = exec_keep(&mut g, &Y::None, "resize", "", &Args { n: Some((len + room) as u128), bit: Some(0), ..Default::default() });
         let gb = g.bits();
+        // push-walk into the next storage word, then grow
+        let w = v.kind().word();
+        let j = (w - len % w) % w + 1;
+        let cap_room = v.kind().fixed_cap().map_or(usize::MAX, |c| c.saturating_sub(len));
+        let gwb = if j < cap_room {
+            let mut gw = v.clone();
+            for _ in 0..j {
+                exec_keep(&mut gw, &Y::None, "push", "", &Args { bit: Some(0), ..Default::default() });
+            }
+            let extra = 70.min(cap_room - j);
+            exec_keep(&mut gw, &Y::None, "resize", "", &Args { n: Some((len + j + extra) as u128), bit: Some(0), ..Default::default() });
+            gw.bits()
+        } else {
+            gb.clone()
+        };
         let mut c = v.clone();
         let by = match exec_keep(&mut c, &Y::None, "to_vec", "", &Args { e: Some('L'), ..Default::default() }) {
             Out::Bytes(b) => b,
@@ -141,9 +168,9 @@ pub fn probe(v: &AnyBv, what: &'static str) -> Probe {
         let e1 = exec_keep(&mut c, &twin, "eq", "", &Args::default()) == Out::Bool(true);
         let e2 = exec_keep(&mut c, &twin, "cmp", "", &Args::default()) == Out::Ord(0);
         let e3 = exec_keep(&mut c, &twin, "ge", "", &Args::default()) == Out::Bool(true);
-        Probe { w: what, g: gb, by, z, e: (e1 && e2 && e3) as u8, ok: (o1 == Out::Unit) as u8 }
+        Probe { w: what, g: gb, gw: gwb, by, z, e: (e1 && e2 && e3) as u8, ok: (o1 == Out::Unit) as u8 }
     }));
-    r.unwrap_or(Probe { w: what, g: vec![], by: vec![], z: 2, e: 2, ok: 0 })
+    r.unwrap_or(Probe { w: what, g: vec![], gw: vec![], by: vec![], z: 2, e: 2, ok: 0 })
 }
 
 /// probes of every vector a call returned, then of the subject itself
@@ -272,7 +299,7 @@ impl Matrix {
     fn prep_for(&mut self, kind: Kind, salt: usize) -> Prep {
         let cands: &[Prep] = match kind {
             Kind::A => &[Prep::Fresh, Prep::Heap, Prep::Spare, Prep::Shrunk, Prep::Pushed, Prep::Reserved, Prep::Popped, Prep::Conv(Kind::D), Prep::Masked],
-            Kind::D => &[Prep::Fresh, Prep::Spare, Prep::Shrunk, Prep::Reserved, Prep::Pushed, Prep::Popped, Prep::Conv(Kind::F64x3), Prep::Masked],
+            Kind::D => &[Prep::Fresh, Prep::Spare, Prep::Shrunk, Prep::Reserved, Prep::Pushed, Prep::Popped, Prep::Conv(Kind::F64x4), Prep::Masked],
             _ => &[Prep::Fresh, Prep::Shrunk, Prep::Pushed, Prep::Popped, Prep::Conv(Kind::D), Prep::Masked, Prep::Conv(Kind::F8x3)],
         };
         cands[(self.rot / 3 + salt) % cands.len()]
